@@ -125,6 +125,9 @@ def parse_date(s, _date_re=re.compile(r"(\d{4})-(\d{2})-(\d{2})", re.ASCII)):
         # iso_utc_time_to_seconds() matches a prefix: without this check
         # "2009-01-16 10:20:30" was read as that time of day, not midnight
         raise ValueError(s, "not a YYYY-MM-DD date")
+    # calendar.timegm() does no range checking ("2009-02-30" came out as
+    # March 2nd): datetime.date raises ValueError unless the day exists
+    datetime.date(int(m.group(1)), int(m.group(2)), int(m.group(3)))
     return int(iso_utc_time_to_seconds(s + "T00:00:00"))
 
 def format_delta(time_1, time_2):
